@@ -95,7 +95,7 @@ L0 == [op |-> [name |-> "none"], out |-> "ok", own |-> <<>>, found |-> 0, script
        ex |-> <<>>, idx |-> 0,
        i |-> 1, j |-> 1, n0 |-> 0, lo |-> 1, hi |-> 0, left |-> 0,
        dp |-> [cbs |-> <<>>, ret |-> "idle", then |-> "none"],
-       stack |-> <<>>, refs |-> <<>>, src |-> <<>>, phase |-> "", pre |-> <<>>]
+       stack |-> <<>>, refs |-> <<>>, src |-> <<>>, phase |-> "", pre |-> <<>>, soft |-> ""]
 
 On(name) == IF name = "A" THEN A ELSE T
 \* (updates of the container a phase works on are written out per action)
@@ -131,8 +131,30 @@ UncheckedOps ==
   THEN {[name |-> "insert_unchecked", k |-> ArgK(1, c), v |-> ArgV(1)] : c \in {c \in Classes : A.len < Cap \/ c \in KeysIn(A)}}
   ELSE {}
 
+KeySeqs == UNION {[1..j -> Classes] : j \in 0..MaxJ}
+NoDup(q) == \A i, j \in 1..Len(q) : q[i] = q[j] => i = j
+DisjointOps ==
+  IF IsMap THEN {[name |-> "disjoint", ks |-> q, w |-> NoWrite, unchecked |-> FALSE] : q \in KeySeqs}
+               \cup (IF Adv THEN {} ELSE {[name |-> "disjoint", ks |-> q, w |-> NoWrite, unchecked |-> TRUE] : q \in {q \in KeySeqs : NoDup(q)}})
+  ELSE {}
+CursorOps ==
+  IF IsMap THEN {[name |-> "cursor", kind |-> kd, n |-> n, w |-> NoWrite, end |-> e] :
+                    kd \in {"into_iter", "into_keys", "into_values"}, n \in 0..A.len, e \in {"drop", "forget"}}
+  ELSE {[name |-> "s_into_iter", n |-> n, end |-> e] : n \in 0..A.len, e \in {"drop", "forget"}}
+Item(j, c) == [k |-> ArgK(j, c), v |-> ArgV(j)]
+ItemSeqs == UNION {{[j \in 1..n |-> Item(j, cs[j])] : cs \in [1..n -> Classes]} : n \in 0..MaxItems}
+BulkOps ==
+  IF IsMap THEN (IF A.len = 0 THEN {[name |-> nm, items |-> it] : nm \in {"from_iter"}, it \in ItemSeqs}
+                                  \cup {[name |-> "from_array", items |-> it] : it \in {x \in ItemSeqs : Len(x) = Cap}} ELSE {})
+  ELSE {[name |-> "s_extend", items |-> it] : it \in ItemSeqs}
+       \cup (IF A.len = 0 THEN {[name |-> "s_from_iter", items |-> it] : it \in ItemSeqs}
+                                \cup {[name |-> "s_from_array", items |-> it] : it \in {x \in ItemSeqs : Len(x) = Cap}} ELSE {})
+CloneOps == {[name |-> "clone", then |-> [name |-> "none"], on |-> "orig", survivor |-> sv] : sv \in {"orig", "copy"}}
+
 AllOps == (IF "core" \in Fams THEN CoreOps ELSE {}) \cup (IF "entry" \in Fams THEN EntryOps ELSE {})
-          \cup (IF "unchecked" \in Fams THEN UncheckedOps ELSE {})
+          \cup (IF "unchecked" \in Fams THEN UncheckedOps ELSE {}) \cup (IF "disjoint" \in Fams THEN DisjointOps ELSE {})
+          \cup (IF "cursor" \in Fams THEN CursorOps ELSE {}) \cup (IF "bulk" \in Fams THEN BulkOps ELSE {})
+          \cup (IF "clone" \in Fams THEN CloneOps ELSE {})
 
 \* ------------------------------------------------------------ start/end --
 \* which scan an op starts with: <<kind, stored-first, other tag, class>>
@@ -164,6 +186,12 @@ Start(op) ==
                        !.own = <<KObj(op.k.kt)>> \o (IF op.m \in EntryTakesV THEN <<VObj(op.v.vt)>> ELSE <<>>)]
        [] op.name = "insert_unchecked" ->
             /\ pc' = "iu" /\ L' = [l EXCEPT !.own = <<VObj(op.v.vt), KObj(op.k.kt)>>]
+       [] op.name = "disjoint" ->
+            /\ L' = [l EXCEPT !.i = 1, !.j = IF op.unchecked THEN 1 ELSE 2]
+            /\ pc' = IF Len(op.ks) = 0 THEN "done" ELSE IF op.unchecked THEN "dj_main" ELSE "dj_pre"
+       [] op.name \in {"cursor", "s_into_iter"} -> pc' = "ci0" /\ L' = l
+       [] op.name \in {"from_iter", "from_array", "s_from_iter", "s_from_array", "s_extend"} -> pc' = "bk0" /\ L' = l
+       [] op.name = "clone" -> pc' = "cl0" /\ L' = l
        [] op.name \in {"retain", "s_retain"} -> pc' = "rt" /\ L' = l
        [] op.name \in {"clear", "s_clear"}   -> pc' = "clr0" /\ L' = l
        [] op.name \in {"drop", "s_drop"}     -> pc' = "drp" /\ L' = l
@@ -189,7 +217,10 @@ Finish ==
 \* ---- linear scan of the live prefix (map.rs lookups, insert_ii, entry) ----
 SetOn(on, C) == IF on = "A" THEN A' = C /\ UNCHANGED T ELSE T' = C /\ UNCHANGED A
 
-Inject == /\ MayPanic /\ budget' = budget - 1 /\ pc' = "unwind" /\ L' = Panic(L, "injected")
+\* an injected panic unwinds the call; when the harness runs the episode as several caught calls
+\* (L.soft # ""), it only ends the current one and the episode goes on at L.soft
+PanicTo == IF L.soft # "" THEN L.soft ELSE "unwind"
+Inject == /\ MayPanic /\ budget' = budget - 1 /\ pc' = PanicTo /\ L' = [Panic(L, "injected") EXCEPT !.n0 = Len(hist) + 1]
 
 ScanStep ==
   /\ pc = "scan"
@@ -237,12 +268,16 @@ IIAfter ==
 DropStep ==
   /\ pc = "dropping"
   /\ UNCHANGED <<A, T, viol>>
-  /\ hist' = hist \o L.dp.cbs
-  /\ \/ /\ UNCHANGED budget /\ pc' = L.dp.ret /\ L' = L
+  /\ \/ /\ UNCHANGED budget /\ pc' = L.dp.ret /\ L' = L /\ hist' = hist \o L.dp.cbs
      \/ /\ MayPanic /\ L.dp.cbs # <<>> /\ budget' = budget - 1
-        /\ \E p \in 1..Len(L.dp.cbs) : L' = [Panic(L, "injected") EXCEPT !.n0 = Len(hist) + p]
-        /\ pc' = "unwind"
-GoDrop(l, cbs, ret) == [l EXCEPT !.dp = [cbs |-> cbs, ret |-> ret, then |-> "none"]]
+        /\ \E p \in 1..Len(L.dp.cbs) :
+             /\ L' = [Panic(L, "injected") EXCEPT !.n0 = Len(hist) + p]
+             \* "glue": the remaining destructors still run (fields of one pair, locals of one frame);
+             \* "seq": separate statements - what comes after the panicking one does not happen
+             /\ hist' = hist \o (IF L.dp.then = "seq" THEN SubSeq(L.dp.cbs, 1, p) ELSE L.dp.cbs)
+        /\ pc' = PanicTo
+GoDrop(l, cbs, ret) == [l EXCEPT !.dp = [cbs |-> cbs, ret |-> ret, then |-> "glue"]]
+GoDropSeq(l, cbs, ret) == [l EXCEPT !.dp = [cbs |-> cbs, ret |-> ret, then |-> "seq"]]
 
 \* ---- unwinding: the locals still owned are destroyed, then a temporary
 \* container, then control is back at the caller ---------------------------
@@ -252,7 +287,7 @@ Unwind ==
   /\ hist' = hist \o LocalDrops(L.own) \o (IF HasT THEN ContDrops(T, 1) ELSE <<>>)
   /\ viol' = Note(viol, ~HasT \/ ContAllLive(T, 1), "unwinding destroyed a slot of a half-built container that holds no live element")
   /\ T' = NoT
-  /\ L' = [L EXCEPT !.own = <<>>, !.n0 = IF L.out = "injected" /\ @ = 0 THEN Len(hist) ELSE @]
+  /\ L' = [L EXCEPT !.own = <<>>]
   /\ pc' = "done"
 
 \* ================================================================ op tails ==
@@ -423,7 +458,7 @@ EntryVac ==
        [] m \in {"or_insert_with", "or_insert_with_key"} ->
             /\ hist' = Append(hist, Cb("f", 0, 0))
             /\ \/ /\ MayPanic /\ budget' = budget - 1 /\ pc' = "unwind"      \* the running closure (holding v) dies before the entry
-                  /\ L' = [Panic(L, "injected") EXCEPT !.own = VArg \o <<KObj(k.kt)>>]
+                  /\ L' = [Panic(L, "injected") EXCEPT !.own = VArg \o <<KObj(k.kt)>>, !.n0 = Len(hist) + 1]
                \/ (UNCHANGED budget /\ ins(L.op.v.vt))
        [] m = "or_default" ->
             /\ hist' = Append(hist, Cb("u", 0, 0))
@@ -462,6 +497,222 @@ InsertUnchecked ==
                      /\ pc' = "dropping" /\ L' = GoDrop([L EXCEPT !.own = <<>>], <<DropK(k.kt)>>, "done")
                 ELSE pc' = "iu" /\ L' = [L EXCEPT !.i = i + 1] /\ UNCHANGED A
 
+\* ---- map.rs get_disjoint_mut / get_disjoint_unchecked_mut -------------------
+\* precheck: every pair of requested keys compared; an equal pair -> assert! panics
+DisjointPre ==
+  /\ pc = "dj_pre"
+  /\ UNCHANGED <<A, T, viol>>
+  /\ LET ks == L.op.ks
+         J == Len(ks) IN
+     IF L.i >= J THEN pc' = "dj_main" /\ L' = [L EXCEPT !.i = 1, !.j = 1] /\ UNCHANGED <<budget, hist>>
+     ELSE /\ hist' = Append(hist, Cb("q", 0, 0))
+          /\ \/ Inject
+             \/ /\ UNCHANGED budget
+                /\ \E b \in EqOutcomes(ks[L.i] = ks[L.j]) :
+                     IF b THEN pc' = "done" /\ L' = [Panic(L, "panic") EXCEPT !.script = Append(@, b)]     \* "Overlapping keys"
+                     ELSE /\ pc' = "dj_pre"
+                          /\ L' = IF L.j < J THEN [L EXCEPT !.j = @ + 1, !.script = Append(@, b)]
+                                  ELSE [L EXCEPT !.i = @ + 1, !.j = L.i + 2, !.script = Append(@, b)]
+\* J = 1: get_mut.  J >= 2: one pass over the live slots; each slot is matched against the
+\* requests front to back (position()), a hit pushes (slot, request) on a stack of J entries
+\* (bounds-checked); afterwards the slice is split from the back and ret[request] = &mut slot.value
+DisjointMain ==
+  /\ pc = "dj_main"
+  /\ UNCHANGED <<A, T>>
+  /\ LET ks == L.op.ks
+         J == Len(ks) IN
+     IF J = 1 THEN /\ pc' = "scan" /\ L' = StartScan(L, "A", "q", TRUE, 0, ks[1], "dj_one") /\ UNCHANGED <<budget, viol, hist>>
+     ELSE IF L.i > A.len THEN pc' = "dj_fin" /\ L' = L /\ UNCHANGED <<budget, viol, hist>>
+     ELSE IF L.j > J THEN pc' = "dj_main" /\ L' = [L EXCEPT !.i = @ + 1, !.j = 1] /\ UNCHANGED <<budget, viol, hist>>
+     ELSE /\ hist' = Append(hist, Cb("q", 0, A.s[L.i].kt))
+          /\ viol' = Note(viol, A.s[L.i].st = "l", "a key comparison read a slot that holds no live element")
+          /\ \/ Inject
+             \/ /\ UNCHANGED budget
+                /\ \E b \in EqOutcomes(ks[L.j] = A.s[L.i].c) :
+                     IF ~b THEN pc' = "dj_main" /\ L' = [L EXCEPT !.j = @ + 1, !.script = Append(@, b)]
+                     ELSE IF Len(L.stack) >= J        \* stack[stack_top]: the bounds check panics
+                     THEN pc' = "done" /\ L' = [Panic(L, "panic") EXCEPT !.script = Append(@, b)]
+                     ELSE pc' = "dj_main" /\ L' = [L EXCEPT !.stack = Append(@, <<L.i, L.j>>), !.i = @ + 1, !.j = 1, !.script = Append(@, b)]
+DisjointOne ==
+  /\ pc = "dj_one" /\ pc' = "done" /\ UNCHANGED <<A, T, budget, hist>>
+  /\ L' = [L EXCEPT !.refs = IF L.found = 0 THEN <<>> ELSE <<L.found>>]
+  /\ viol' = Note(viol, L.found = 0 \/ (L.found <= A.len /\ A.s[L.found].st = "l"), "get_mut returned a slot that holds no live element")
+\* the references handed out together: for every request the LAST slot assigned to it when the
+\* stack is walked back to front, i.e. the lowest matching slot
+DisjointFin ==
+  /\ pc = "dj_fin" /\ pc' = "done" /\ UNCHANGED <<A, T, budget, hist>>
+  /\ LET st == L.stack
+         J == Len(L.op.ks)
+         slotOf(j) == IF \E n \in 1..Len(st) : st[n][2] = j
+                      THEN st[CHOOSE n \in 1..Len(st) : st[n][2] = j /\ \A m \in 1..(n - 1) : st[m][2] # j][1] ELSE 0
+         refs == [j \in 1..J |-> slotOf(j)] IN
+     /\ L' = [L EXCEPT !.refs = refs]
+     /\ viol' = Note(Note(Note(viol,
+                  \A n, m \in 1..Len(st) : n < m => st[n][1] < st[m][1], "split_at_mut would be called with indices that are not strictly decreasing"),
+                  \A a, b \in 1..J : (a # b /\ refs[a] # 0) => refs[a] # refs[b], "two mutable references to the same slot were handed out together"),
+                  \A a \in 1..J : refs[a] = 0 \/ (refs[a] <= A.len /\ A.s[refs[a]].st = "l"), "a mutable reference to a slot that holds no live element was handed out")
+
+\* ---- iterators.rs IntoIter / keys.rs IntoKeys / values.rs IntoValues / set SetIntoIter ----
+\* The container moves into the iterator (held in T; the harness leaves a new empty one in its
+\* place).  The harness runs an episode of separately caught calls: n x next, Debug, then
+\* drop / count() / forget (exec.rs exec_cursor, end_cursor).
+CKind == IF L.op.name = "s_into_iter" THEN "into_keys" ELSE L.op.kind
+CursorStart ==
+  /\ pc = "ci0" /\ pc' = "ci_next"
+  /\ T' = A /\ A' = Fresh
+  /\ L' = [L EXCEPT !.left = L.op.n, !.soft = "ci_dbg", !.phase = IF L.op.end = "forget" THEN "leaky" ELSE ""]
+  /\ UNCHANGED <<budget, viol, hist>>
+\* IntoIter::next: len -= 1, read the last live slot; the projections drop the other half
+CursorNext ==
+  /\ pc = "ci_next"
+  /\ UNCHANGED <<A, budget, hist>>
+  /\ IF L.left > 0 /\ T.len > 0 THEN
+       LET n == T.len
+           sl == T.s[n]
+           half == IF ~IsMap THEN <<>> ELSE IF CKind = "into_keys" THEN <<DropV(sl.vt)>> ELSE IF CKind = "into_values" THEN <<DropK(sl.kt)>> ELSE <<>> IN
+       /\ viol' = Note(viol, sl.st = "l", "IntoIter::next moved out a slot that holds no live element")
+       /\ T' = [T EXCEPT !.len = n - 1, !.s[n].st = "m"]
+       /\ pc' = "dropping" /\ L' = GoDrop([L EXCEPT !.left = @ - 1], half, "ci_next")
+     ELSE pc' = "ci_dbg" /\ L' = L /\ UNCHANGED <<T, viol>>
+\* Debug of the consuming iterators renders the remaining map front to back
+CursorDebug ==
+  /\ pc = "ci_dbg"
+  /\ UNCHANGED <<A, T>>
+  /\ LET RECURSIVE F(_)
+         F(i) == IF i > T.len THEN <<>>
+                 ELSE (IF ~IsMap THEN <<>>
+                       ELSE IF CKind = "into_iter" THEN <<Cb("t", T.s[i].kt, 0), Cb("t", VT(T.s[i].vt), 0)>>
+                       ELSE IF CKind = "into_keys" THEN <<Cb("t", T.s[i].kt, 0)>> ELSE <<Cb("t", VT(T.s[i].vt), 0)>>) \o F(i + 1)
+         cbs == F(1)
+         byCount == L.op.n % 2 = 1 /\ CKind # "into_iter"     \* IntoIter overrides count(): len, then drop
+         nxt == IF L.op.end = "forget" THEN "ci_gone" ELSE IF byCount THEN "ci_count" ELSE "ci_drop" IN
+     /\ viol' = Note(viol, ContAllLive(T, 1), "Debug of a consuming iterator rendered a slot that holds no live element")
+     /\ pc' = nxt
+     /\ \/ /\ hist' = hist \o cbs /\ L' = [L EXCEPT !.soft = "ci_gone", !.i = 1] /\ UNCHANGED budget
+        \/ /\ MayPanic /\ budget' = budget - 1
+           /\ \E p \in 1..Len(cbs) : hist' = hist \o SubSeq(cbs, 1, p)
+                                     /\ L' = [Panic(L, "injected") EXCEPT !.n0 = Len(hist) + p, !.soft = "ci_gone", !.i = 1]
+\* dropping the iterator = Drop for Map on what is left (front to back)
+CursorDrop ==
+  /\ pc = "ci_drop"
+  /\ UNCHANGED <<A, budget>>
+  /\ IF L.i > T.len THEN pc' = "ci_gone" /\ L' = L /\ UNCHANGED <<T, viol, hist>>
+     ELSE /\ viol' = Note(viol, T.s[L.i].st = "l", "Drop destroyed a slot that holds no live element")
+          /\ T' = [T EXCEPT !.s[L.i].st = "d"]
+          /\ pc' = "dropping" /\ L' = GoDrop([L EXCEPT !.i = @ + 1], PairDrops(T.s[L.i].kt, T.s[L.i].vt), "ci_drop")
+          /\ UNCHANGED hist
+\* count() of the projections = fold over next: every item is produced (other half dropped) and
+\* then destroyed by the fold; a panic unwinds through the iterator, whose map drops the rest
+CursorCount ==
+  /\ pc = "ci_count"
+  /\ UNCHANGED <<A, budget, hist>>
+  /\ IF T.len = 0 THEN pc' = "ci_gone" /\ L' = L /\ UNCHANGED <<T, viol>>
+     ELSE LET n == T.len
+              sl == T.s[n]
+              cbs == IF ~IsMap THEN <<DropK(sl.kt)>> ELSE IF CKind = "into_keys" THEN <<DropV(sl.vt), DropK(sl.kt)>> ELSE <<DropK(sl.kt), DropV(sl.vt)>> IN
+          /\ viol' = Note(viol, sl.st = "l", "IntoIter::next moved out a slot that holds no live element")
+          /\ T' = [T EXCEPT !.len = n - 1, !.s[n].st = "m"]
+          /\ pc' = "dropping" /\ L' = GoDropSeq([L EXCEPT !.soft = "ci_unw", !.i = 1], cbs, "ci_count")
+CursorUnwind ==       \* unwinding out of count(): Drop for Map on the rest, no further panic
+  /\ pc = "ci_unw" /\ pc' = "ci_gone" /\ UNCHANGED <<A, budget, L>>
+  /\ hist' = hist \o ContDrops(T, 1)
+  /\ viol' = Note(viol, ContAllLive(T, 1), "Drop destroyed a slot that holds no live element")
+  /\ T' = [T EXCEPT !.s = [x \in 1..Cap |-> IF x <= T.len THEN [T.s[x] EXCEPT !.st = "d"] ELSE T.s[x]]]
+CursorGone ==
+  /\ pc = "ci_gone" /\ pc' = "done" /\ T' = NoT /\ UNCHANGED <<A, budget, viol, hist, L>>
+
+\* ---- from.rs / set/from.rs / set/extend.rs: a loop of insert over the source ----------
+\* from_*: into a new local container (T) that replaces A on success and is dropped on unwind;
+\* Set::extend: into A itself.  The harness' recording source makes one 'n' callback per pull.
+BulkTarget == IF L.op.name = "s_extend" THEN "A" ELSE "T"
+BulkPulls == L.op.name \in {"from_iter", "s_from_iter", "s_extend"}
+SrcObjs(items, from) ==
+  LET RECURSIVE F(_)
+      F(j) == IF j > Len(items) THEN <<>> ELSE <<KObj(items[j].k.kt)>> \o VLocals(items[j].v.vt) \o F(j + 1)
+  IN F(from)
+BulkStart ==
+  /\ pc = "bk0" /\ pc' = "bk_pull" /\ UNCHANGED <<A, budget, viol, hist>>
+  /\ T' = IF BulkTarget = "T" THEN Fresh ELSE T
+  /\ L' = [L EXCEPT !.i = 1, !.own = SrcObjs(L.op.items, 1)]
+BulkPull ==
+  /\ pc = "bk_pull"
+  /\ UNCHANGED viol
+  /\ LET items == L.op.items
+         i == L.i
+         go == IF i > Len(items)
+               THEN /\ pc' = "done" /\ L' = [L EXCEPT !.own = <<>>]
+                    /\ IF BulkTarget = "T" THEN A' = T /\ T' = NoT ELSE UNCHANGED <<A, T>>
+               ELSE /\ UNCHANGED <<A, T>> /\ pc' = "scan"
+                    /\ L' = LET l2 == StartII(L, BulkTarget, items[i].k, items[i].v.vt, FALSE, FALSE, "bk_tail") IN
+                            [l2 EXCEPT !.own = @ \o SrcObjs(items, i + 1)] IN
+     IF BulkPulls
+     THEN /\ hist' = Append(hist, Cb("n", 0, 0))
+          /\ \/ Inject /\ UNCHANGED <<A, T>>
+             \/ UNCHANGED budget /\ go
+     ELSE UNCHANGED <<budget, hist>> /\ go
+\* insert(): the key part of a displaced pair is destroyed; then the loop body drops the old value
+BulkTail ==
+  /\ pc = "bk_tail"
+  /\ UNCHANGED <<A, T, budget, viol, hist>>
+  /\ LET rest == SrcObjs(L.op.items, L.i + 1)
+         l2 == [L EXCEPT !.i = @ + 1, !.own = rest] IN
+     IF L.ex = <<>> THEN pc' = "bk_pull" /\ L' = l2
+     ELSE pc' = "dropping" /\ L' = GoDropSeq(l2, <<DropK(L.ex[1])>> \o (IF IsMap THEN <<DropV(L.ex[2])>> ELSE <<>>), "bk_pull")
+
+\* ---- clone.rs: element-wise clone into a new container whose len grows with the writes ----
+\* harness episode (exec.rs "clone"): clone | copy == orig | orig == copy | drop of the non-survivor
+CloneStart ==
+  /\ pc = "cl0" /\ pc' = "cl_k" /\ T' = Fresh /\ L' = [L EXCEPT !.i = 1] /\ UNCHANGED <<A, budget, viol, hist>>
+CloneKey ==
+  /\ pc = "cl_k"
+  /\ UNCHANGED <<A, T>>
+  /\ IF L.i > A.len THEN pc' = "cl_eq" /\ L' = [L EXCEPT !.i = 1, !.j = 1, !.soft = "cl_eq"] /\ UNCHANGED <<budget, viol, hist>>
+     ELSE /\ hist' = Append(hist, Cb("c", A.s[L.i].kt, 0))
+          /\ viol' = Note(viol, A.s[L.i].st = "l", "clone read a slot that holds no live element")
+          /\ (Inject \/ (UNCHANGED budget /\ pc' = "cl_v" /\ L' = [L EXCEPT !.own = <<KObj(20 + A.s[L.i].kt)>>]))
+CloneVal ==
+  /\ pc = "cl_v"
+  /\ UNCHANGED <<A, viol>>
+  /\ LET sl == A.s[L.i]
+         wr == /\ T' = [T EXCEPT !.s[L.i] = LiveSlot(sl.c, 20 + sl.kt, IF IsMap THEN 20 + sl.vt ELSE 0), !.len = T.len + 1]
+               /\ pc' = "cl_k" /\ L' = [L EXCEPT !.i = @ + 1, !.own = <<>>] IN
+     IF IsMap THEN /\ hist' = Append(hist, Cb("c", VT(sl.vt), 0))
+                   /\ ((Inject /\ UNCHANGED T) \/ (UNCHANGED budget /\ wr))
+     ELSE UNCHANGED <<budget, hist>> /\ wr
+\* eq.rs: equal len, then for every pair of the left operand: right.get(k) == Some(v)
+\* L.j = 1: copy == orig (left T, right A); L.j = 2: orig == copy
+EqLeft == IF L.j = 1 THEN T ELSE A
+EqRightName == IF L.j = 1 THEN "A" ELSE "T"
+CloneEq ==
+  /\ pc = "cl_eq"
+  /\ UNCHANGED <<A, T, budget, viol, hist>>
+  /\ IF L.j > 2 THEN pc' = "cl_swap" /\ L' = [L EXCEPT !.soft = "cl_gone", !.i = 1]
+     ELSE IF L.i > EqLeft.len \/ EqLeft.len # On(EqRightName).len THEN pc' = "cl_eq" /\ L' = [L EXCEPT !.j = @ + 1, !.i = 1]
+     ELSE /\ pc' = "scan"
+          /\ L' = StartScan([L EXCEPT !.soft = "cl_eqp"], EqRightName, "e", TRUE, EqLeft.s[L.i].kt, EqLeft.s[L.i].c, "cl_eqv")
+CloneEqPanicked ==        \* a panic inside one comparison call ends that call only
+  /\ pc = "cl_eqp" /\ pc' = "cl_eq" /\ L' = [L EXCEPT !.j = 3, !.i = 1] /\ UNCHANGED <<A, T, budget, viol, hist>>   \* (`a == b || b == a` short-circuits)
+CloneEqVal ==
+  /\ pc = "cl_eqv"
+  /\ UNCHANGED <<A, T, viol>>
+  /\ IF L.found = 0 THEN pc' = "cl_eq" /\ L' = [L EXCEPT !.j = 3, !.i = 1] /\ UNCHANGED <<budget, hist>>     \* all() stops: false
+     ELSE IF ~IsMap THEN pc' = "cl_eq" /\ L' = [L EXCEPT !.i = @ + 1] /\ UNCHANGED <<budget, hist>>
+     ELSE /\ hist' = Append(hist, Cb("v", VT(On(EqRightName).s[L.found].vt), VT(EqLeft.s[L.i].vt)))
+          /\ (Inject \/ (UNCHANGED budget /\ pc' = "cl_eq" /\ L' = [L EXCEPT !.i = @ + 1]))
+CloneSwap ==
+  /\ pc = "cl_swap" /\ pc' = "cl_drop" /\ L' = L /\ UNCHANGED <<budget, viol, hist>>
+  /\ IF L.op.survivor = "copy" THEN A' = T /\ T' = A ELSE UNCHANGED <<A, T>>
+CloneDrop ==
+  /\ pc = "cl_drop"
+  /\ UNCHANGED <<A, budget>>
+  /\ IF L.i > T.len THEN pc' = "cl_gone" /\ L' = L /\ UNCHANGED <<T, viol, hist>>
+     ELSE /\ viol' = Note(viol, T.s[L.i].st = "l", "Drop destroyed a slot that holds no live element")
+          /\ T' = [T EXCEPT !.s[L.i].st = "d"]
+          /\ pc' = "dropping" /\ L' = GoDrop([L EXCEPT !.i = @ + 1], PairDrops(T.s[L.i].kt, T.s[L.i].vt), "cl_drop")
+          /\ UNCHANGED hist
+CloneGone ==
+  /\ pc = "cl_gone" /\ pc' = "done" /\ T' = NoT /\ UNCHANGED <<A, budget, viol, hist, L>>
+
 \* ==================================================================== spec ==
 Init == A = Fresh /\ T = NoT /\ pc = "idle" /\ L = L0 /\ budget = 0 /\ viol = "none" /\ hist = <<>>
 
@@ -484,6 +735,10 @@ Next ==
   \/ ScanStep \/ IIAfter \/ DropStep \/ (Unwind /\ L.phase # "count") \/ UnwindDrain
   \/ LookupAfter \/ InsertTail \/ RetainStep \/ ClearStart \/ ClearStep \/ DropStepC
   \/ EntryAfter \/ EntryOcc \/ EntryVac \/ EntryIITail \/ InsertUnchecked
+  \/ DisjointPre \/ DisjointMain \/ DisjointOne \/ DisjointFin
+  \/ CursorStart \/ CursorNext \/ CursorDebug \/ CursorDrop \/ CursorCount \/ CursorUnwind \/ CursorGone
+  \/ BulkStart \/ BulkPull \/ BulkTail
+  \/ CloneStart \/ CloneKey \/ CloneVal \/ CloneEq \/ CloneEqPanicked \/ CloneEqVal \/ CloneSwap \/ CloneDrop \/ CloneGone
   \/ DrainStart \/ DrainNext \/ DrainDebug \/ DrainDrop \/ DrainCount
   \/ Done
 Spec == Init /\ [][Next]_vars
